@@ -219,7 +219,7 @@ def label_builder_shape(fi: FuncInfo, node_keys: str, edge_keys: str, directed: 
     obs.append(("pairs", ok_pairs, [norm(l.iter) for l in loops],
                 ("every ordered pair of distinct positions contributes an arc bit" if directed else "every unordered pair of positions contributes an edge bit"), fn))
     # return NS + '||' + '|'.join(bits)
-    rets = [n for n in walk_local(fn) if isinstance(n, ast.Return)]
+    rets = sorted([n for n in walk_local(fn) if isinstance(n, ast.Return)], key=lambda n: n.lineno)
     ok_ret = False
     if rets and ns and bits_name:
         m = pmatch("$ns + '||' + $es", rets[-1].value, {"ns": ns})
@@ -228,3 +228,41 @@ def label_builder_shape(fi: FuncInfo, node_keys: str, edge_keys: str, directed: 
             ok_ret = pmatch("'|'.join($eb)", es_src, {"eb": bits_name}) is not None
     obs.append(("return", ok_ret, rets[-1] if rets else "return", "the label is the node segment followed by all pair bits (nothing dropped)", fn))
     return obs
+
+
+def split_sorted(fi: FuncInfo):
+    """refinement: the grouping dict filled by g.setdefault(sig, []).append(v) must be iterated through sorted(g) with a total key.
+    -> (ok, construct-node-or-text, group-names)"""
+    from ..pattern import pfind
+    from .label import _total_key
+    groups = pfind("$g.setdefault($s, []).append($v)", fi.node)
+    gnames = {b["g"] for _, b in groups}
+    base = lambda e: norm(e).split(".")[0].split("(")[0].split("[")[0]
+    srt = [l for l in walk_local(fi.node) if isinstance(l, ast.For) and isinstance(l.iter, ast.Call) and call_name(l.iter) == "sorted"
+           and l.iter.args and base(l.iter.args[0]) in gnames]
+    raw = [l for l in walk_local(fi.node) if isinstance(l, ast.For) and base(l.iter) in gnames]
+    ok = len(gnames) == 1 and len(srt) == 1 and _total_key(srt[0].iter) and not raw
+    return ok, (srt[0].iter if srt else (raw[0].iter if raw else "sorted(<signature groups>)")), gnames
+
+
+def initial_partition_sorted(fi: FuncInfo, keys_attr: str):
+    """return [sorted(cell) for _, cell in sorted(buckets.items()[, key=first component])] with buckets keyed by the attribute tuple"""
+    from ..pattern import pmatch, pfind
+    rets = sorted([n for n in walk_local(fi.node) if isinstance(n, ast.Return)], key=lambda n: n.lineno)
+    if not rets:
+        return False, "return"
+    val = rets[-1].value
+    mm = None
+    for pat in ("[sorted($c) for $u, $c in sorted($b.items())]",
+                "[sorted($c) for $u, $c in sorted($b.items(), key=lambda $kv: $kv[0])]",
+                "[sorted($b[$k]) for $k in sorted($b)]", "[sorted($b[$k]) for $k in sorted($b.keys())]"):
+        mm = pmatch(pat, val)
+        if mm:
+            break
+    if not mm:
+        return False, rets[-1]
+    fills = pfind("$b.setdefault($k, []).append($v)", fi.node, {"b": mm["b"]})
+    if not fills:
+        return False, rets[-1]
+    ksrc = origin(local_defs(fi.node), ast.Name(id=fills[0][1]["k"], ctx=ast.Load()))
+    return f"self.{keys_attr}" in norm(ksrc), rets[-1]
